@@ -179,10 +179,18 @@ SegmentEv ==
          f12 == \E s \in DOMAIN g.slots : s \in DOMAIN g.redirects
          kid == IF f12 THEN "F12" ELSE "F7"
          kc == f12 \/ g.kind = "types"
+         \* F23: a code-only walk does not visit configured type imports, so the segment of a code-only graph keeps the
+         \* import records but not what they point at, while a direct code-only build loads those targets
+         impT == UNION { { dg.imports[i].deps[j].type.ok : j \in { x \in DOMAIN dg.imports[i].deps : IsOk(dg.imports[i].deps[x].type) } } : i \in DOMAIN dg.imports }
+         f23 == g.kind = "code" /\ impT # {} /\ \A s \in DiffSpecs(EntryObs(sg), EntryObs(dg)) :
+                   s \notin DOMAIN sg.slots /\ s \notin DOMAIN sg.redirects /\ s \in (impT \cup Below(dg, impT))
+         \* ... the same loss seen through a walk of the segment that includes types
+         f23v == g.kind = "code" /\ \E t \in impT : t \notin DOMAIN sg.slots /\ t \notin DOMAIN sg.redirects
+         kidV == IF f12 THEN "F12" ELSE IF f23v THEN "F23" ELSE "F7"
      IN /\ Check("C18", "segment-resolve_dependency", sameDeps, kid, kc, "-", "-")
         /\ Check("C18", "segment-lookups", sameLook, kid, kc, "-", "-")
-        /\ Check("C18", "segment-validation", sameValid, kid, kc, "-", "-")
-        /\ (IF ~notRoots THEN TRUE ELSE Check("C18", "segment-equals-direct-build", EntryObs(sg) = EntryObs(dg), IF tmr THEN "F20" ELSE IF ctxk THEN "CTX" ELSE "F7", tmr \/ ctxk \/ f7,
+        /\ Check("C18", "segment-validation", sameValid, kidV, kc \/ f23v, "-", "-")
+        /\ (IF ~notRoots THEN TRUE ELSE Check("C18", "segment-equals-direct-build", EntryObs(sg) = EntryObs(dg), IF tmr THEN "F20" ELSE IF ctxk THEN "CTX" ELSE IF f23 THEN "F23" ELSE "F7", tmr \/ ctxk \/ f7 \/ f23,
                                 DiffSpecs(EntryObs(sg), EntryObs(dg)), "-"))
         /\ Drift("segment-coded", Segment(g, e.roots).slots = sg.slots /\ Segment(g, e.roots).redirects = sg.redirects)
   /\ l' = l + 1 /\ UNCHANGED g
